@@ -136,6 +136,21 @@ Definition num_gaps_unique (rs : rows) : list nat :=
   fold_left (fun acc i => match index_of_gap (column rs i) with Some j => bump n j acc | None => acc end)
             (seq 0 (width rs)) (repeat 0 n).
 
+(* with a CountProfile built from [prof] (NewCountProfileFromAlignment): (numuniques, numnew, numboth) *)
+Definition prof_count (prof : rows) (b : byte) (i : nat) : nat := countb b (column prof i).
+Definition num_gaps_profile (rs prof : rows) : list nat * list nat * list nat :=
+  let n := length rs in
+  fold_left (fun (acc : list nat * list nat * list nat) i =>
+      let '(u, nw, bo) := acc in
+      let col := column rs i in
+      let absent := Nat.eqb (prof_count prof GAP i) 0 in
+      let nw' := fold_left (fun a j => if beqb (nth j col x00) GAP && absent then bump n j a else a) (seq 0 n) nw in
+      match index_of_gap col with
+      | Some j => (bump n j u, nw', if absent then bump n j bo else bo)
+      | None => (u, nw', bo)
+      end)
+    (seq 0 (width rs)) (repeat 0 n, repeat 0 n, repeat 0 n).
+
 Definition unique_wild (alphabet : Z) : byte := info_wild alphabet.
 
 (* rows holding, at this column, a byte that occurs exactly once (not the wildcard, not a gap) *)
@@ -143,6 +158,19 @@ Definition unique_rows (alphabet : Z) (col : list byte) : list nat :=
   filter (fun j => let b := nth j col x00 in
                    Nat.eqb (countb b col) 1 && negb (beqb b (unique_wild alphabet)) && negb (beqb b GAP))
          (seq 0 (length col)).
+
+Definition num_mutations_profile (alphabet : Z) (rs prof : rows) : list nat * list nat * list nat :=
+  let n := length rs in
+  fold_left (fun (acc : list nat * list nat * list nat) i =>
+      let '(u, nw, bo) := acc in
+      let col := column rs i in
+      let counted b := negb (beqb b (unique_wild alphabet)) && negb (beqb b GAP) in
+      let nw' := fold_left (fun a j => let b := nth j col x00 in
+                                       if counted b && Nat.eqb (prof_count prof b i) 0 then bump n j a else a) (seq 0 n) nw in
+      let uq := unique_rows alphabet col in
+      (fold_left (fun a j => bump n j a) uq u, nw',
+       fold_left (fun a j => if Nat.eqb (prof_count prof (nth j col x00) i) 0 then bump n j a else a) uq bo))
+    (seq 0 (width rs)) (repeat 0 n, repeat 0 n, repeat 0 n).
 
 Definition num_mutations_unique (alphabet : Z) (rs : rows) : list nat :=
   let n := length rs in
